@@ -33,18 +33,62 @@ Theorem C24_bound_generic : forall dofs max ls s, (forall e, dofs e = false) ->
 Proof. exact bound_all_interleavings. Qed.
 Print Assumptions C24_bound_generic.
 
+(* ---- reloads of the limits configuration: several gates ----
+   Source-order fact: in both handlers Start and the deferred Done are called
+   on one plain identifier that is assigned exactly once (the gate value is
+   looked up once per request). *)
+Theorem C24_start_and_done_on_the_same_gate : forall e, same_gate e = true.
+Proof. exact current_source_same_gate. Qed.
+Print Assumptions C24_start_and_done_on_the_same_gate.
+
+(* Any initial capacity, any number of requests and of reloads (each installs a
+   fresh gate of any capacity), EVERY interleaving: on every gate, old or new,
+   at most its capacity of requests admitted by it are inside the write path,
+   its accounting stays balanced (tokens = in the write path + about to
+   release) and Done never hits an empty gate. *)
+Theorem C24_per_gate_bound_across_reloads : forall max ls gs,
+  mrun done_on_failed_start same_gate (minit max) ls = Some gs ->
+  Forall (fun g => working (snd g) <= fst g /\ panics (snd g) = 0) gs.
+Proof. exact per_gate_bound_current_source. Qed.
+Print Assumptions C24_per_gate_bound_across_reloads.
+
+Theorem C24_per_gate_bound_generic : forall dofs same max ls gs,
+  (forall e, dofs e = false) -> (forall e, same e = true) ->
+  mrun dofs same (minit max) ls = Some gs ->
+  Forall (fun g => working (snd g) <= fst g /\ panics (snd g) = 0 /\ tokens (snd g) = working (snd g) + exiting (snd g)) gs.
+Proof. exact per_gate_bound. Qed.
+Print Assumptions C24_per_gate_bound_generic.
+
 (* Tie to the check: if the implementation's observed counts after every
-   scheduled operation are those of the model (corr_ok), then the property's
-   predicate holds of those observations (pred_ok). *)
+   scheduled operation (reloads included) are those of the model (corr_ok),
+   then the property's predicate holds of those observations (pred_ok). *)
 Theorem C24_observed_runs_within_bound : forall c, corr_ok c = true -> pred_ok c = true.
 Proof. exact corr_implies_pred. Qed.
 Print Assumptions C24_observed_runs_within_bound.
 
-(* ... and the schedule controller's operations are LTS runs that never get stuck. *)
-Theorem C24_schedule_is_run : forall dofs max s o s', exec_op dofs max s o = Some s' ->
-  exists ls, run dofs max s ls = Some s'.
+(* ... and the schedule controller's operations are LTS runs. *)
+Theorem C24_schedule_is_run : forall dofs same gs o gs', exec_op dofs same gs o = Some gs' ->
+  exists ls, mrun dofs same gs ls = Some gs'.
 Proof. exact exec_op_is_run. Qed.
 Print Assumptions C24_schedule_is_run.
+
+(* A handler that looks the gate up a second time for its Done breaks both
+   halves as soon as a request straddles a reload (capacity 1: two requests
+   admitted by the new gate inside the write path; Done on the empty new gate). *)
+Theorem C24_double_lookup_refuted_bound :
+  exists gs, mrun (fun _ => false) (fun _ => false) (minit 1)
+    [MOn 0 (LArrive Http); MOn 0 LAdmit; MReload 1; MOn 1 (LArrive Http); MOn 1 LAdmit;
+     MOn 0 LFinish; MRelease 0 Http; MOn 1 (LArrive Otlp); MOn 1 LAdmit] = Some gs
+    /\ map (fun g => (fst g, working (snd g))) gs = [(1, 0); (1, 2)].
+Proof. exact double_lookup_over_admission. Qed.
+Print Assumptions C24_double_lookup_refuted_bound.
+
+Theorem C24_double_lookup_refuted_panic :
+  exists gs, mrun (fun _ => false) (fun _ => false) (minit 1)
+    [MOn 0 (LArrive Http); MOn 0 LAdmit; MReload 1; MOn 0 LFinish; MRelease 0 Http] = Some gs
+    /\ sum_of panics gs = 1.
+Proof. exact double_lookup_panic. Qed.
+Print Assumptions C24_double_lookup_refuted_panic.
 
 (* With the order the source had before the repair (Done deferred before the
    error test) both halves fail: *)
@@ -64,7 +108,16 @@ Print Assumptions C24_done_before_check_refuted_panic.
    finishes, another arrives: a run of the current-source LTS ending with two
    requests in the write path and one cancelled. *)
 Example C24_nonvacuous :
-  option_map snap_of (run done_on_failed_start 2 init
+  option_map (fun s => (working s, waiting s, finished s, cancelled s, panics s)) (run done_on_failed_start 2 init
     [LArrive Http; LAdmit; LArrive Otlp; LAdmit; LArrive Http; LCancel Http;
      LFinish; LRelease; LArrive Http; LAdmit]) = Some (2, 0, 1, 1, 0).
+Proof. vm_compute. reflexivity. Qed.
+
+(* ... and with a reload while a request is queued: the queued request is later
+   admitted by the OLD gate, the new gate admits independently. *)
+Example C24_nonvacuous_reload :
+  option_map snap_of (mrun done_on_failed_start same_gate (minit 1)
+    [MOn 0 (LArrive Http); MOn 0 LAdmit; MOn 0 (LArrive Otlp); MReload 1; MOn 1 (LArrive Http); MOn 1 LAdmit;
+     MOn 0 LFinish; MRelease 0 Http; MOn 0 LAdmit])
+  = Some ([(1, 1, 0); (1, 1, 0)], 1, 0, 0).
 Proof. vm_compute. reflexivity. Qed.
